@@ -441,3 +441,28 @@ VARIANTS += [
  dict(name='read-helper-swallows-read-error', expect='flagged(get/read-error)',
       edits=read_helper(body=READ_OLD.replace('\t\treturn nil, fmt.Errorf("failed to get crl bundle from file cache with key %q: %w", url, err)\n', '\t\tlogger.Debugf("read of %q failed: %v", url, err)\n'))),
 ]
+
+# ---- third pass: the write step of Set in a helper of the package (extract-helper at the write boundary)
+WRITE_OLD = '\tif err := file.WriteFile(c.root, filepath.Join(c.root, c.fileName(url)), contentBytes); err != nil {\n\t\treturn fmt.Errorf("failed to store crl bundle in file cache: %w", err)\n\t}\n\treturn nil\n}\n'
+def write_helper(call='c.writeEntry(url, contentBytes)', stmt=None, body='\treturn file.WriteFile(c.root, filepath.Join(c.root, c.fileName(url)), content)\n', extra=None, imports=None):
+    if stmt is None:
+        stmt = '\tif err := ' + call + '; err != nil {\n\t\treturn fmt.Errorf("failed to store crl bundle in file cache: %w", err)\n\t}\n'
+    e = [(C, WRITE_OLD, stmt + '\treturn nil\n}\n\n// writeEntry stores content as the entry of url\nfunc (c *FileCache) writeEntry(url string, content []byte) error {\n' + body + '}\n')]
+    if extra:
+        e += extra
+    if imports:
+        e.append((C, '\t"path/filepath"\n', '\t"path/filepath"\n' + imports))
+    return e
+VARIANTS += [
+ dict(name='benign-set-write-helper', expect='silent', edits=write_helper(),
+      why='the writer\'s error is the helper\'s result, which Set tests; the destination reads Join(root, key(url)) and the content the marshalled entry once the helper\'s parameters are replaced by Set\'s arguments'),
+ dict(name='benign-set-write-helper-wraps-error', expect='silent',
+      edits=write_helper(stmt='\tif err := c.writeEntry(url, contentBytes); err != nil {\n\t\treturn err\n\t}\n',
+                         body='\tif err := file.WriteFile(c.root, filepath.Join(c.root, c.fileName(url)), content); err != nil {\n\t\treturn fmt.Errorf("failed to store crl bundle in file cache: %w", err)\n\t}\n\treturn nil\n')),
+ dict(name='write-helper-drops-write-error', expect='flagged(set/write-error)', edits=write_helper(body='\t_ = file.WriteFile(c.root, filepath.Join(c.root, c.fileName(url)), content)\n\treturn nil\n')),
+ dict(name='write-helper-error-ignored-by-set', expect='flagged(set/write-error)', edits=write_helper(stmt='\t_ = c.writeEntry(url, contentBytes)\n')),
+ dict(name='write-helper-fed-trimmed-url', expect='flagged(confinement/Set)', edits=write_helper(call='c.writeEntry(strings.TrimSuffix(url, "/"), contentBytes)', imports='\t"strings"\n')),
+ dict(name='write-helper-destination-is-url', expect='flagged(confinement/Set)', edits=write_helper(body='\treturn file.WriteFile(c.root, filepath.Join(c.root, filepath.Base(url)), content)\n')),
+ dict(name='write-helper-fed-a-prefix', expect='flagged(set/writes-marshalled-entry)', edits=write_helper(call='c.writeEntry(url, contentBytes[:len(contentBytes)&^511])')),
+ dict(name='write-helper-fed-base-bytes', expect='flagged(set/writes-marshalled-entry)', edits=write_helper(stmt='\t_ = contentBytes\n\tif err := c.writeEntry(url, bundle.BaseCRL.Raw); err != nil {\n\t\treturn fmt.Errorf("failed to store crl bundle in file cache: %w", err)\n\t}\n')),
+]
